@@ -116,7 +116,11 @@ class PITFrozenTimestepMasker(PITTimestepMasker):
             rf,
             trainable=False,
         )
-        self.beta.requires_grad = False
+        # a frozen mask is a constant, not a parameter: DNAS.train_* write requires_grad on every
+        # element of nas_parameters() without going through the `trainable` setter below
+        beta = self.beta.detach()
+        del self.beta
+        self.register_buffer('beta', beta)
 
     @property
     def trainable(self) -> bool:
